@@ -115,3 +115,37 @@ func zzH_c20_conn() {
 	}
 	vReach("end")
 }
+
+// H20-config-getcert: one Config serving two handshakes at once: choosing the certificate for
+// the requested server name (exact entry, wildcard entry, fallback to the first certificate)
+// only reads the shared configuration, and each result is the single-threaded one.
+//
+//verif:property C20
+//verif:expect-reach end
+//verif:bound a Config with two certificates and a NameToCertificate map {"a.example.com", "*.example.com"}; two logical threads calling getCertificate, each for one of the names {"a.example.com", "B.example.com.", "c.example.com", "other.org", ""} (25 pairs); footprint + lock-set check over the Config, the map and the certificates
+//verif:outside GetCertificate callbacks (application code); BuildNameToCertificate (called before the Config is shared)
+//verif:unwind 100
+func zzH_c20_config_getcert() {
+	cfg := &Config{Certificates: make([]Certificate, 2)}
+	cfg.NameToCertificate = map[string]*Certificate{"a.example.com": &cfg.Certificates[0], "*.example.com": &cfg.Certificates[1]}
+	names := []string{"a.example.com", "B.example.com.", "c.example.com", "other.org", ""}
+	want := []*Certificate{&cfg.Certificates[0], &cfg.Certificates[1], &cfg.Certificates[1], &cfg.Certificates[0], &cfg.Certificates[0]}
+	i, j := vChoice("name1", len(names)), vChoice("name2", len(names))
+	var c1, c2 *Certificate
+	var e1, e2 error
+	n := 1
+	if vNative() {
+		n = 2000
+	}
+	vParallel(func() {
+		for k := 0; k < n; k++ {
+			c1, e1 = cfg.getCertificate(&ClientHelloInfo{ServerName: names[i]})
+		}
+	}, func() {
+		for k := 0; k < n; k++ {
+			c2, e2 = cfg.getCertificate(&ClientHelloInfo{ServerName: names[j]})
+		}
+	})
+	vAssert("concurrent-choice-equals-sequential", e1 == nil && e2 == nil && c1 == want[i] && c2 == want[j])
+	vReach("end")
+}
